@@ -59,6 +59,8 @@ type Client struct {
 
 	// FailNext[name] = n: the next n calls of that method fail with ErrInjected.
 	FailNext map[string]int
+	// FailNth[name] = n: exactly the n-th call from now fails (n counts down).
+	FailNth map[string]int
 	// SendAnswer, if set, decides the answer class of the next
 	// SendRawTransaction calls (one entry consumed per call). "" or exhausted:
 	// honest node behaviour.
@@ -80,7 +82,7 @@ type Client struct {
 func NewClient(n *Node, birthday time.Time, queueBuf int) *Client {
 	c := &Client{node: n, q: chain.NewConcurrentQueue(queueBuf),
 		watchedAddrs: map[string]bool{}, watchedOutPoints: map[wire.OutPoint]bool{},
-		mempool: map[chainhash.Hash]bool{}, FailNext: map[string]int{}, Calls: map[string]int{},
+		mempool: map[chainhash.Hash]bool{}, FailNext: map[string]int{}, FailNth: map[string]int{}, Calls: map[string]int{},
 		Fired: map[string]int{}, birthday: birthday, FilterBlocksMin: -1}
 	tip := n.Tip()
 	c.best = waddrmgr.BlockStamp{Hash: tip.Hash, Height: tip.Height, Timestamp: tip.Time()}
@@ -93,6 +95,13 @@ func (c *Client) fail(name string) bool {
 		c.FailNext[name]--
 		c.Fired[name]++
 		return true
+	}
+	if n := c.FailNth[name]; n > 0 {
+		c.FailNth[name] = n - 1
+		if n == 1 {
+			c.Fired[name]++
+			return true
+		}
 	}
 	return false
 }
